@@ -91,30 +91,37 @@ def geom(enz):
     return enz.site, enz.fst5 - len(enz.site), abs(enz.ovhg)
 
 
-def gen_module(rng, enz, o5, o3, tlen=None, blen=None, tries=2000):
+def with_ns(rng, s, ns):
+    """some letters replaced by the ambiguous base call `N` (legal anywhere outside the recognition sites)"""
+    if not ns:
+        return s
+    return "".join("N" if rng.random() < ns else c for c in s)
+
+
+def gen_module(rng, enz, o5, o3, tlen=None, blen=None, tries=2000, ns=0.0):
     """plasmid  site·x·o5·t·o3·y·rc(site)·b  carrying exactly the two sites"""
     site, off, k = geom(enz)
     for _ in range(tries):
         fb = (site, rc(site))
-        x = rnd_avoid(rng, off, fb)
-        y = rnd_avoid(rng, off, fb)
-        t = rnd_avoid(rng, tlen if tlen is not None else rng.randint(2, 12), fb)
-        b = rnd_avoid(rng, blen if blen is not None else rng.randint(0, 10), fb)
+        x = with_ns(rng, rnd_avoid(rng, off, fb), ns)
+        y = with_ns(rng, rnd_avoid(rng, off, fb), ns)
+        t = with_ns(rng, rnd_avoid(rng, tlen if tlen is not None else rng.randint(2, 12), fb), ns)
+        b = with_ns(rng, rnd_avoid(rng, blen if blen is not None else rng.randint(0, 10), fb), ns)
         wd = site + x + o5 + t + o3 + y + rc(site) + b
         if circ_count(wd, site) == 1 and circ_count(wd, rc(site)) == 1:
             return wd, dict(x=x, y=y, t=t, b=b, o5=o5, o3=o3)
     raise RuntimeError("gen_module failed")
 
 
-def gen_vector(rng, enz, o5, o3, plen=None, blen=None, tries=2000):
+def gen_vector(rng, enz, o5, o3, plen=None, blen=None, tries=2000, ns=0.0):
     """plasmid  o3·b·o5·y·rc(site)·p·site·x  (o3 = upstream overhang, o5 = downstream overhang)"""
     site, off, k = geom(enz)
     for _ in range(tries):
         fb = (site, rc(site))
-        x = rnd_avoid(rng, off, fb)
-        y = rnd_avoid(rng, off, fb)
-        p = rnd_avoid(rng, plen if plen is not None else rng.randint(0, 10), fb)
-        b = rnd_avoid(rng, blen if blen is not None else rng.randint(2, 12), fb)
+        x = with_ns(rng, rnd_avoid(rng, off, fb), ns)
+        y = with_ns(rng, rnd_avoid(rng, off, fb), ns)
+        p = with_ns(rng, rnd_avoid(rng, plen if plen is not None else rng.randint(0, 10), fb), ns)
+        b = with_ns(rng, rnd_avoid(rng, blen if blen is not None else rng.randint(2, 12), fb), ns)
         wd = o3 + b + o5 + y + rc(site) + p + site + x
         if circ_count(wd, site) == 1 and circ_count(wd, rc(site)) == 1:
             return wd, dict(x=x, y=y, p=p, b=b, o5=o5, o3=o3)
@@ -139,7 +146,7 @@ def distinct_overhangs(rng, k, count, forbid=()):
     return ovs
 
 
-def gen_assembly(rng, enz, nmods, closing=None):
+def gen_assembly(rng, enz, nmods, closing=None, ns=0.0):
     """vector + chain of modules with the expected product (documented formula).  `closing`: the overhang on which
     the chain closes (the vector's upstream overhang) is the reverse complement of an inner junction ("rc") or its
     own reverse complement ("pal") — legal: only the modules' *start* overhangs must not pair up"""
@@ -157,8 +164,8 @@ def gen_assembly(rng, enz, nmods, closing=None):
         cand = half + rc(half)
         if cand not in ovs and all(rc(o) != cand for o in ovs[:nmods]) and site not in cand and rc(site) not in cand:
             ovs[nmods] = cand
-    vec = gen_vector(rng, enz, o5=ovs[0], o3=ovs[nmods])
-    mods = [gen_module(rng, enz, ovs[i], ovs[i + 1]) for i in range(nmods)]
+    vec = gen_vector(rng, enz, o5=ovs[0], o3=ovs[nmods], ns=ns)
+    mods = [gen_module(rng, enz, ovs[i], ovs[i + 1], ns=ns) for i in range(nmods)]
     expected = vec[1]["o3"] + vec[1]["b"] + "".join(d["o5"] + d["t"] for _, d in mods)
     return vec, mods, expected
 
